@@ -48,6 +48,10 @@ type Scenario struct {
 	ThoroughOnly bool
 }
 
+// PostExec, when set, is evaluated after every complete execution in addition to the scenario's oracle (used by the
+// race-detector build: did the detector report something during this execution?).
+var PostExec func(e *vrt.Exec) []*Violation
+
 // DefaultCheck flags deadlocks and panics.
 func DefaultCheck(name string, e *vrt.Exec) *Violation {
 	if len(e.Fails) > 0 {
@@ -148,7 +152,7 @@ type explorer struct {
 	res   *Result
 	st    *BoundStats
 	bound int
-	cache map[uint64]int
+	cache *vrt.U64Map
 	cut   bool
 	d2    int
 	sigs  map[string]bool
@@ -205,10 +209,17 @@ func (x *explorer) check(e *vrt.Exec) {
 	} else {
 		v = DefaultCheck(x.sc.Name, e)
 	}
+	var vs []*Violation
 	if v != nil {
+		vs = append(vs, v)
+	}
+	if PostExec != nil {
+		vs = append(vs, PostExec(e)...)
+	}
+	for _, v := range vs {
 		v.Scenario = x.sc.Name
 		if x.sigs[v.Signature] {
-			return
+			continue
 		}
 		x.sigs[v.Signature] = true
 		v.Schedule = choices(e)
@@ -250,10 +261,10 @@ func logStrings(e *vrt.Exec, max int) string {
 }
 
 func (x *explorer) visit(e *vrt.Exec, key uint64, cost int) bool {
-	if c, ok := x.cache[key]; ok && c <= cost {
+	if c, ok := x.cache.Get(key); ok && int(c) <= cost {
 		return true
 	}
-	x.cache[key] = cost
+	x.cache.Put(key, uint64(cost))
 	return false
 }
 
@@ -322,13 +333,13 @@ func Explore(sc *Scenario, opt Options) *Result {
 		x.st, x.bound, x.d2 = st, b, 0
 		x.cache = nil
 		if opt.Cache {
-			x.cache = map[uint64]int{}
+			x.cache = &vrt.U64Map{}
 		}
 		t0 := time.Now()
 		x.explore(nil, 0)
 		st.WallS = time.Since(t0).Seconds()
 		st.Completed = !x.cut
-		st.States = len(x.cache)
+		st.States = x.cache.Len()
 		res.Bounds = append(res.Bounds, st)
 		if x.cut {
 			break
@@ -337,12 +348,12 @@ func Explore(sc *Scenario, opt Options) *Result {
 	if opt.Unbounded && !x.cut {
 		st := &BoundStats{Bound: -1, Outcomes: map[string]int{}}
 		x.st, x.bound, x.d2 = st, -1, 0
-		x.cache = map[uint64]int{}
+		x.cache = &vrt.U64Map{}
 		t0 := time.Now()
 		x.explore(nil, 0)
 		st.WallS = time.Since(t0).Seconds()
 		st.Completed = !x.cut
-		st.States = len(x.cache)
+		st.States = x.cache.Len()
 		res.Unbounded = st
 	}
 	res.DistinctObs = len(res.obs)
@@ -352,6 +363,12 @@ func Explore(sc *Scenario, opt Options) *Result {
 // Replay runs one schedule twice and checks that both runs agree.
 func Replay(sc *Scenario, schedule []int) (*Violation, string, error) {
 	e1 := runOnce(sc, schedule, nil, true)
+	var pv *Violation
+	if PostExec != nil {
+		if l := PostExec(e1); len(l) > 0 {
+			pv = l[0]
+		}
+	}
 	e2 := runOnce(sc, schedule, nil, true)
 	if e1.Outcome == vrt.Diverged {
 		return nil, "", fmt.Errorf("replay diverged: %s", e1.DivergeMsg)
@@ -364,6 +381,9 @@ func Replay(sc *Scenario, schedule []int) (*Violation, string, error) {
 		v = sc.Check(e1)
 	} else {
 		v = DefaultCheck(sc.Name, e1)
+	}
+	if v == nil {
+		v = pv
 	}
 	tr := strings.Join(e1.Trace, "\n") + "\n-- log --\n" + strings.ReplaceAll(logStrings(e1, 1000), " | ", "\n")
 	return v, tr, nil
